@@ -25,7 +25,7 @@ variable {m : Model} {p : Params}
 (b) a non-automatic task — and, when `perform_auto_task_while_absence_time` is off, every task —
     keeps its remaining work; so does every task that is not WORKING after the step;
 (c) with the flag on, an automatic task `t < nT` that is WORKING after `check_state(WORKING)`
-    loses exactly its unit rate;
+    (which runs at an absence step only when the flag is on) loses exactly its unit rate;
 (d) every worker `< nW` and facility `< nF` gets the log entry ABSENCE and the cost entry 0, and
     every team, workplace, the organization and the project get the cost entry 0. -/
 theorem C10_absence_step (s1 : St) (h : workingAt p s1.time = false) :
@@ -85,19 +85,54 @@ state recorded after step 0 -/
 example : ((runTrace demo demoP St.fresh)[0]?.map fun s => workingAt demoP (updated demo s).time) =
     some false := by decide +kernel
 
-/-
-  The live-state half of clause (d) as asked — "every worker `< nW` and facility `< nF` has live
-  state ABSENCE after the step, for every state `s1`" — is FALSE for arbitrary `s1`:
+/-- **C10 (project absence step, flag off: nothing happens).**  At a project-wide absence step
+while `perform_auto_task_while_absence_time` is off, `check_state(WORKING)` is not run either: no
+task changes its state (in particular nothing starts), no remaining work changes, and — for
+every state `s1`, reachable or not — every worker `< nW` and facility `< nF` has live state
+ABSENCE after the step.  (Allocation lists, logs and costs: `C10_absence_step` (a), (d).) -/
+theorem C10_absence_step_idle (s1 : St) (h : workingAt p s1.time = false)
+    (hf : p.autoFlag = false) :
+    (stepBody m p s1).live.tstate = s1.live.tstate ∧
+    (stepBody m p s1).live.rem = s1.live.rem ∧
+    (∀ w, w < m.nW → (stepBody m p s1).live.wstate w = .absence) ∧
+    (∀ f, f < m.nF → (stepBody m p s1).live.fstate f = .absence) := by
+  have hc : p.absence.contains s1.time = true := by
+    simpa [workingAt] using h
+  refine ⟨?_, ?_, ?_, ?_⟩
+  · rw [stepBody_tstate, preCost_inactive p s1 hc hf]; rfl
+  · funext t
+    rw [stepBody_rem, h, hf, if_neg]
+    rintro ⟨_, _, hact | ⟨ha, _⟩⟩
+    · cases hact
+    · cases ha
+  · intro w hw
+    exact preCost_wstate_inactive p s1 w hw hc hf
+  · intro f hlt
+    exact preCost_fstate_inactive p s1 f hlt hc hf
 
-    theorem C10_absence_live (s1 : St) (h : workingAt p s1.time = false) :
+/-- **C10 (project absence step, live states).**  With the flag off, every worker `< nW` and
+facility `< nF` has live state ABSENCE after a project-wide absence step, from ANY state `s1`. -/
+theorem C10_absence_live (s1 : St) (h : workingAt p s1.time = false) (hf : p.autoFlag = false) :
+    (∀ w, w < m.nW → (stepBody m p s1).live.wstate w = .absence) ∧
+    (∀ f, f < m.nF → (stepBody m p s1).live.fstate f = .absence) :=
+  (C10_absence_step_idle s1 h hf).2.2
+
+/-
+  With `perform_auto_task_while_absence_time` ON the live-state statement — "every worker `< nW`
+  and facility `< nF` has live state ABSENCE after the step, for every state `s1`" — is FALSE for
+  arbitrary `s1`:
+
+    theorem C10_absence_live' (s1 : St) (h : workingAt p s1.time = false) :
       (∀ w, w < m.nW → (stepBody m p s1).live.wstate w = .absence) ∧
       (∀ f, f < m.nF → (stepBody m p s1).live.fstate f = .absence)
 
-  Counterexample (`c10Bad` below): a READY task that already holds a worker.  `allocate` is
-  skipped, but `check_state(WORKING)` still starts the task and marks its worker WORKING.  Such a
-  state violates `HoldWorking` (C03), which holds at every reachable step boundary; with that
-  hypothesis the statement is true (`C10_absence_live_partial`).  The *logged* state and the
-  cost are ABSENCE / 0 in any case (`C10_absence_step` (d)).
+  Counterexample (`c10Bad` below, with the flag set): a READY task that already holds a worker.
+  `allocate` is skipped, but with the flag set `check_state(WORKING)` still runs, starts the task
+  and marks its worker WORKING.  Such a state violates `HoldWorking` (C03), which holds at every
+  reachable step boundary; with that hypothesis the statement is true for either value of the
+  flag (`C10_absence_live_partial`).  With the flag off the same state is harmless
+  (`C10_absence_live`).  The *logged* state and the cost are ABSENCE / 0 in any case
+  (`C10_absence_step` (d)).
 -/
 
 /-- a READY task 0 holding worker 0, at time 1 of the demo parameters (an absence step) -/
@@ -108,12 +143,20 @@ def c10Bad : St := { St.fresh with
     allocW := fun t => if t = 0 then [0] else []
     wasg := fun w => if w = 0 then [0] else [] } }
 
-example : workingAt demoP c10Bad.time = false ∧ (0 : Nat) < demo.nW ∧
-    (stepBody demo demoP c10Bad).live.wstate 0 = .working := by decide +kernel
+/-- with the flag set the held worker is switched to WORKING at the absence step; with the flag
+off (the premises of `C10_absence_step_idle` / `C10_absence_live`) it is ABSENCE and the task
+stays READY -/
+example : workingAt { demoP with autoFlag := true } c10Bad.time = false ∧ (0 : Nat) < demo.nW ∧
+    (stepBody demo { demoP with autoFlag := true } c10Bad).live.wstate 0 = .working ∧
+    workingAt demoP c10Bad.time = false ∧ demoP.autoFlag = false ∧
+    (stepBody demo demoP c10Bad).live.wstate 0 = .absence ∧
+    (stepBody demo demoP c10Bad).live.tstate 0 = .ready := by decide +kernel
 
-/-- **C10 (project absence step, live states), with the C03 hypothesis explicit.**  If READY
-tasks hold nothing before the step (`ReadyEmpty`, a consequence of `HoldWorking`), every worker
-`< nW` and facility `< nF` has live state ABSENCE after a project-wide absence step. -/
+/-- **C10 (project absence step, live states), either value of the flag, with the C03 hypothesis
+explicit.**  If READY tasks hold nothing before the step (`ReadyEmpty`, a consequence of
+`HoldWorking`), every worker `< nW` and facility `< nF` has live state ABSENCE after a
+project-wide absence step.  (Needed only when the flag is set; with the flag off see
+`C10_absence_live`.) -/
 theorem C10_absence_live_partial (s1 : St) (h : workingAt p s1.time = false)
     (hre : ReadyEmpty s1.live) :
     (∀ w, w < m.nW → (stepBody m p s1).live.wstate w = .absence) ∧
@@ -310,6 +353,8 @@ example : demoP.initLog = true ∧ 1 < (runTrace demo demoP St.fresh).length ∧
 end PDesy
 
 #print axioms PDesy.C10_absence_step
+#print axioms PDesy.C10_absence_step_idle
+#print axioms PDesy.C10_absence_live
 #print axioms PDesy.C10_absence_live_partial
 #print axioms PDesy.C10_absence_live_of_holdWorking
 #print axioms PDesy.C10_worker_absent_now
